@@ -12,6 +12,7 @@ CONSTANTS
     MaxReaps = 1
     ResumeScripts = {"noop", "close", "panic"}
     OpenScripts = {"open", "open_panic"}
+    Routes = {"unary"}
     Toks = {"own", "bad"}
     Lags = {0}
     AadBinds = TRUE
